@@ -402,6 +402,10 @@ class Engine:
             if isinstance(v.val, float) and v.val == -float("inf") and isinstance(t, Ty.Opt):
                 # extended integers: -inf is the 'none' of Opt(Int)
                 return Ty.mk_opt_none(t.t)
+            if isinstance(v.val, float) and v.val in (float("inf"), -float("inf")) and isinstance(t, Ty._Real):
+                return self.infinity(v.val < 0)
+            if isinstance(v.val, (int, float)) and not isinstance(v.val, bool) and isinstance(t, Ty._Real):
+                return V(Real, [z3.RealVal(repr(v.val))])
             raise Unsupported(f"python constant {v.val!r} flowing into {t}")
         if isinstance(t, Ty._Real) and isinstance(v.t, Ty._Int):
             return V(Real, [z3.ToReal(v.term)])
@@ -558,8 +562,14 @@ class Engine:
         if node.keys:
             # {"name": value, ...} with constant string keys: an immutable record
             if all(isinstance(k, ast.Constant) and isinstance(k.value, str) for k in node.keys):
-                vals = [self.unbox_value(st, self.eval(st, v)) for v in node.values]
                 names = [k.value for k in node.keys]
+                hint = self.contract.hints.get(getattr(node, "_target_name", None))
+                if isinstance(hint, Ty.SDict):
+                    cur = Ty.sdict_empty(hint)
+                    for nm, vnode in zip(names, node.values):
+                        cur = self.functional_store(st, cur, PyConst(nm), self.eval(st, vnode), node)
+                    return self.alloc(st, cur)
+                vals = [self.unbox_value(st, self.eval(st, v)) for v in node.values]
                 t = Ty.Rec("dict", dict(zip(names, [v.t for v in vals])), mutable=False)
                 return V(t, [c for v in vals for c in v.c])
             raise Unsupported("non-empty dict literal")
@@ -638,7 +648,12 @@ class Engine:
             f = self.pow10()
             yr = z3.ToReal(y) if y.sort() == Ty.IntS else y
             return V(Real, [f(yr)])
-        raise Unsupported("general power")
+        # general power: uninterpreted (only equalities between identical terms follow)
+        if "upow" not in self.specfns:
+            self.specfns["upow"] = (z3.Function("upow", Ty.RealS, Ty.RealS, Ty.RealS), [], Real, None)
+        xr = z3.ToReal(x) if x.sort() == Ty.IntS else x
+        yr = z3.ToReal(y) if y.sort() == Ty.IntS else y
+        return V(Real, [self.specfns["upow"][0](xr, yr)])
 
     def pow10(self):
         if "pow10" not in self.specfns:
